@@ -58,6 +58,7 @@ class SolverUnknown(BaseException):
 class Ctx:
     cur: "Ctx" = None
     incremental_gave_up = 0  # per process (= per obligation)
+    use_cvc5_for_strings = False  # set by harness modules whose claims are word equations
 
     def __init__(self, trail, timeout_ms=20000, max_decisions=4000):
         self.trail = trail  # list of [choice, closed]
@@ -125,6 +126,8 @@ class Ctx:
             if r == z3.unknown:
                 Ctx.incremental_gave_up += 1
         self._model_src = self.solver
+        if r == z3.unknown and Ctx.use_cvc5_for_strings:
+            r = self._cvc5(extra)
         if r == z3.unknown:
             for mk in (lambda: z3.Solver(), lambda: z3.Then("simplify", "solve-eqs", "qfnra-nlsat").solver(),
                        lambda: z3.Tactic("smt").solver()):
@@ -149,6 +152,22 @@ class Ctx:
         if r == z3.unknown:
             self.unknowns += 1
         return r
+
+    def _cvc5(self, extra):
+        """second solver for word equations (z3's sequence solver gives up on them); only `unsat` is taken over"""
+        try:
+            from .strs import cvc5_check
+
+            s2 = z3.Solver()
+            s2.add(self.solver.assertions())
+            s2.add(*extra)
+            txt = s2.to_smt2().replace("(check-sat)", "")
+            if cvc5_check(txt, min(self.timeout_ms, 15000)) == "unsat":
+                self.fallbacks += 1
+                return z3.unsat
+        except Exception:  # noqa: BLE001 - the second solver is best effort
+            pass
+        return z3.unknown
 
     def get_model(self):
         return self._model_src.model()
